@@ -23,14 +23,51 @@ pub open spec fn variants_post(t: DescTransformer, v: TypeDefVariant, out: Seq<c
     exists|ds: Seq<Seq<char>>| #![auto] ds.len() == v.variants@.len() && (forall|i: int| 0 <= i < ds.len() ==> is_variant_descr(t, #[trigger] ds[i], v.variants@[i]))
         && list_text(out, '{', '}', false, ds)
 }
+/// the text of one field: `name: T` or `T`, with T wrapped in `Box<..>` iff the field's type name mentions Box
+pub open spec fn field_text(f: Field, d: Seq<char>) -> Seq<char> {
+    let inner = if boxed_name(f) { seq!['B', 'o', 'x', '<'] + d + seq!['>'] } else { d };
+    if f.name is Some { f.name->0@ + seq![':', ' '] + inner } else { inner }
+}
+pub open spec fn is_field_descr(t: DescTransformer, s: Seq<char>, f: Field) -> bool {
+    exists|d: Seq<char>| is_descr(t, d, f.ty.id) && s == #[trigger] field_text(f, d)
+}
 pub open spec fn all_named(f: Seq<Field>) -> bool { forall|i: int| 0 <= i < f.len() ==> (#[trigger] f[i]).name is Some }
 pub open spec fn all_unnamed(f: Seq<Field>) -> bool { forall|i: int| 0 <= i < f.len() ==> (#[trigger] f[i]).name is None }
-pub open spec fn fields_post(t: DescTransformer, f: Seq<Field>, r: AnyResult<String>) -> bool {
-    if f.len() == 0 { r is Ok && r->Ok_0@ == seq!['(', ')'] }
+pub open spec fn fields_text_ok(t: DescTransformer, f: Seq<Field>, s: Seq<char>) -> bool {
+    if f.len() == 0 { s == seq!['(', ')'] }
     else {
-        (!all_named(f) && !all_unnamed(f) ==> r is Err)
-        && (r is Ok ==> exists|ds: Seq<Seq<char>>| #![auto] ds.len() == f.len() && (forall|i: int| 0 <= i < ds.len() ==> is_field_descr(t, #[trigger] ds[i], f[i]))
-            && ((all_named(f) && list_text(r->Ok_0@, '{', '}', false, ds)) || (all_unnamed(f) && list_text(r->Ok_0@, '(', ')', false, ds))))
+        exists|ds: Seq<Seq<char>>| #![auto] ds.len() == f.len() && (forall|i: int| 0 <= i < ds.len() ==> is_field_descr(t, #[trigger] ds[i], f[i]))
+            && ((all_named(f) && list_text(s, '{', '}', false, ds)) || (all_unnamed(f) && list_text(s, '(', ')', false, ds)))
+    }
+}
+pub open spec fn fields_post(t: DescTransformer, f: Seq<Field>, r: AnyResult<String>) -> bool {
+    (f.len() == 0 ==> r is Ok)
+    && (f.len() > 0 && !all_named(f) && !all_unnamed(f) ==> r is Err)
+    && (r is Ok ==> fields_text_ok(t, f, r->Ok_0@))
+}
+/// the text of one variant: its name, followed by its field list unless that is `()`
+pub open spec fn is_variant_descr(t: DescTransformer, s: Seq<char>, v: Variant) -> bool {
+    exists|ft: Seq<char>| fields_text_ok(t, v.fields@, ft) && s == #[trigger] variant_text(v, ft)
+}
+pub open spec fn variant_text(v: Variant, ft: Seq<char>) -> Seq<char> {
+    if ft == seq!['(', ')'] { v.name@ } else { v.name@ + ft }
+}
+pub open spec fn vec_text(d: Seq<char>) -> Seq<char> { seq!['V', 'e', 'c', '<'] + d + seq!['>'] }
+pub open spec fn array_text(d: Seq<char>, n: u32) -> Seq<char> { seq!['['] + d + seq![';', ' '] + dec_u32(n) + seq![']'] }
+pub open spec fn compact_text(d: Seq<char>) -> Seq<char> { seq!['C', 'o', 'm', 'p', 'a', 'c', 't', '<'] + d + seq!['>'] }
+pub open spec fn bitseq_text(d1: Seq<char>, d2: Seq<char>) -> Seq<char> { seq!['B', 'i', 't', 'S', 'e', 'q', 'u', 'e', 'n', 'c', 'e', '('] + d1 + seq![',', ' '] + d2 + seq![')'] }
+/// the text of a type definition, one level deep, in terms of what the callees return for the children
+pub open spec fn typedef_text_ok(t: DescTransformer, def: TypeDef, s: Seq<char>) -> bool {
+    match def {
+        TypeDef::Composite(c) => fields_text_ok(t, c.fields@, s),
+        TypeDef::Variant(v) => variants_post(t, v, s),
+        TypeDef::Sequence(q) => exists|d: Seq<char>| #[trigger] is_descr(t, d, q.type_param.id) && s == vec_text(d),
+        TypeDef::Array(a) => exists|d: Seq<char>| #[trigger] is_descr(t, d, a.type_param.id) && s == array_text(d, a.len),
+        TypeDef::Tuple(tu) => tuple_post(t, tu, s),
+        TypeDef::Primitive(p) => s == prim_text(p),
+        TypeDef::Compact(c) => exists|d: Seq<char>| #[trigger] is_descr(t, d, c.type_param.id) && s == compact_text(d),
+        TypeDef::BitSequence(b) => exists|d1: Seq<char>, d2: Seq<char>| #[trigger] is_descr(t, d1, b.bit_order_type.id) && #[trigger] is_descr(t, d2, b.bit_store_type.id)
+            && s == bitseq_text(d1, d2),
     }
 }
 pub proof fn lemma_upto_n_ext(a: Seq<Seq<char>>, b: Seq<Seq<char>>, k: int, n: int, sc: bool)
